@@ -216,6 +216,10 @@ impl<S: BuildHasher + Clone + 'static> ExpirationMap<S> {
             .map(|bucket| bucket.map))
     }
 
+    pub fn clear(&self) {
+        self.buckets.write().clear();
+    }
+
     pub fn hasher(&self) -> S {
         self.hasher.clone()
     }
